@@ -298,7 +298,7 @@ class C17Invalid(EnumCheck):
 
 # =============================================================================== C19
 TOKENS = ["plain", "'single quoted'", '"double quoted"', "esc\\ aped", "''", "$HOME", "*", ";", "|", "#x",
-          "éü", '--k="v w"']
+          "éü", '--k="v w"', "{}", "'{print $1}'", "${HOME}", "%s", "a=b", "\\\\", "~", "&&", ">out", "`id`", "$(id)"]
 NAME_ALPHABET = [None, "J", "a_b", "a-b", "a.b", "007", "Job.1-x_2"]
 PROBE_DIR = os.path.join(boot.WORK, "probes")
 
@@ -335,7 +335,7 @@ class C19Launch(EnumCheck):
 
     def specs(self):
         specs = []
-        maxlen = 2 if self.tier == "quick" else 3
+        maxlen = 3
         i = 0
         for n in range(1, maxlen + 1):
             for toks in itertools.product(range(len(TOKENS)), repeat=n):
